@@ -4,7 +4,7 @@ import os
 import pathlib
 import time
 
-from .engine.loader import AnalysisError, Unknown, norm_text
+from .engine.loader import AnalysisError, Unknown, norm_text, public_qual
 
 VERIF = pathlib.Path(__file__).resolve().parent.parent
 KNOWN_FILE = VERIF / "known_findings.json"
@@ -58,6 +58,8 @@ class Checker:
         self.rules = {}
         self.current = None
         self.t0 = time.time()
+        from .rules import guards
+        guards.set_repo(repo)
 
     # -- rule scoping -----------------------------------------------------
     def rule(self, rule, title, floor=0):
@@ -113,6 +115,7 @@ class Checker:
             cons = construct if construct is not None else norm_text(node_or_where)
         if len(cons) > 300:
             cons = cons[:300]
+        where = public_qual(where)
         f = Finding(rule or log.rule, where, cons, message, line=line, path=path,
                     expected=None if expected is None else str(expected), found=None if found is None else str(found))
         # de-duplicate
